@@ -9,7 +9,7 @@ namespace Occa.Gc
 structure DelOut (s s' : St) (o : Nat) : Prop where
   dead : s'.alive o = false
   keep : ∀ t, s.alive t = true → s.kind t = s.kind o → t ≠ o → s'.alive t = true
-  vlive : ∀ v, (∀ d, v ≠ Var.cur d) → s'.vlive v = s.vlive v
+  vlive : ∀ v, (∀ d, v = Var.cur d → s'.alive d = true) → s'.vlive v = s.vlive v
   kind : s'.kind = s.kind
   next : s'.next = s.next
   ptr_out : ∀ w, (∀ x, w ∉ s.ring x) → (s'.ptr w = s.ptr w ∨ s'.ptr w = none)
